@@ -1,1 +1,243 @@
 // Kani contract harnesses for /repo/arrow-avro/src/reader/cursor.rs (child module: sees private items via super::)
+use super::*;
+#[path = "/verif/kani/support/spec.rs"]
+mod spec;
+use spec::*;
+
+// C08: AvroCursor on ARBITRARY bytes (fixed 16-byte array, symbolic length n <= 16): every accessor
+// returns Ok or Err, never panics, never reads outside the input; the cursor only moves forward and
+// stays inside the input; returned slices are sub-slices of the input (same memory).
+// Stub: alloc::fmt::format (error text).
+
+fn any_input<const N: usize>() -> ([u8; N], usize) {
+    let a: [u8; N] = kani::any();
+    let n: usize = kani::any();
+    kani::assume(n <= N);
+    (a, n)
+}
+
+/// Avro varint by the format definition: Some((value, bytes)) iff terminated within 10 bytes and the
+/// 10th byte (if any) is < 2
+fn spec_varint(buf: &[u8], n: usize) -> Option<(u64, usize)> {
+    let mut v = 0u64;
+    let mut i = 0;
+    while i < n && i < 10 {
+        let b = buf[i];
+        if i == 9 && b >= 2 {
+            return None;
+        }
+        v |= ((b & 0x7f) as u64) << (7 * i);
+        if b & 0x80 == 0 {
+            return Some((v, i + 1));
+        }
+        i += 1;
+    }
+    None
+}
+fn unzigzag(u: u64) -> i64 {
+    let w = u as i128;
+    (if u & 1 == 0 { w / 2 } else { -((w + 1) / 2) }) as i64
+}
+
+/// position, with the invariant that the remaining slice is the suffix of the input at that position
+fn pos_of(c: &AvroCursor<'_>, a: &[u8], n: usize) -> usize {
+    let p = c.position();
+    assert!(p <= n && c.buf.len() == n - p && c.buf.as_ptr() == a[p..].as_ptr());
+    p
+}
+
+// Contract (C08): the fixed-width accessors.
+//  get_u8 / get_bool: Ok(first byte / first byte != 0) and advance 1 iff n >= 1, else Err(EOF), no move
+//  get_float / get_double: Ok(value whose bit pattern is the little-endian 4 / 8 bytes) and advance iff
+//      enough bytes, else Err, no move  (C17: this is the exact inverse of the writer's to_le_bytes, NaN
+//      payloads included)
+//  get_fixed(k), any k: Ok(sub-slice input[p..p+k]) and advance k iff k <= remaining, else Err, no move
+// @unit name=cursor_fixed_width props=C08,C17 kind=bounded bound=input<=16_bytes fns=AvroCursor::new,AvroCursor::position,AvroCursor::get_u8,AvroCursor::get_bool,AvroCursor::get_float,AvroCursor::get_double,AvroCursor::get_fixed timeout=480 mem=3
+#[kani::proof]
+#[kani::unwind(12)]
+#[kani::stub(alloc::fmt::format, stub_format)]
+fn cursor_fixed_width() {
+    let (a, n) = any_input::<16>();
+    let mut c = AvroCursor::new(&a[..n]);
+    // start from an arbitrary position reached by a first get_fixed
+    let p0: usize = kani::any();
+    kani::assume(p0 <= n);
+    let r0 = c.get_fixed(p0);
+    assert!(r0.is_ok());
+    std::mem::forget(r0);
+    assert!(pos_of(&c, &a, n) == p0);
+    let rem = n - p0;
+    match kani::any::<u8>() {
+        0 => {
+            let r = c.get_u8();
+            assert!(r.is_ok() == (rem >= 1));
+            if let Ok(x) = &r {
+                assert!(*x == a[p0]);
+            }
+            assert!(pos_of(&c, &a, n) == p0 + r.is_ok() as usize);
+            kani::cover!(r.is_err() && p0 == 16);
+            std::mem::forget(r);
+        }
+        1 => {
+            let r = c.get_bool();
+            assert!(r.is_ok() == (rem >= 1));
+            if let Ok(x) = &r {
+                assert!(*x == (a[p0] != 0));
+            }
+            assert!(pos_of(&c, &a, n) == p0 + r.is_ok() as usize);
+            kani::cover!(matches!(r, Ok(true)) && a[p0] == 0x80);
+            std::mem::forget(r);
+        }
+        2 => {
+            let r = c.get_float();
+            assert!(r.is_ok() == (rem >= 4));
+            if let Ok(x) = &r {
+                let j: usize = kani::any();
+                kani::assume(j < 32);
+                assert!(((x.to_bits() >> j) & 1 == 1) == bit(&a, p0 * 8 + j));
+            }
+            assert!(pos_of(&c, &a, n) == if rem >= 4 { p0 + 4 } else { p0 });
+            kani::cover!(matches!(r, Ok(x) if x.is_nan()));
+            kani::cover!(r.is_err() && rem == 3);
+            std::mem::forget(r);
+        }
+        3 => {
+            let r = c.get_double();
+            assert!(r.is_ok() == (rem >= 8));
+            if let Ok(x) = &r {
+                let j: usize = kani::any();
+                kani::assume(j < 64);
+                assert!(((x.to_bits() >> j) & 1 == 1) == bit(&a, p0 * 8 + j));
+            }
+            assert!(pos_of(&c, &a, n) == if rem >= 8 { p0 + 8 } else { p0 });
+            kani::cover!(matches!(r, Ok(x) if x.is_nan()) && p0 == 8);
+            kani::cover!(r.is_err() && rem == 7);
+            std::mem::forget(r);
+        }
+        _ => {
+            let k: usize = kani::any();
+            let r = c.get_fixed(k);
+            assert!(r.is_ok() == (k <= rem));
+            if let Ok(s) = &r {
+                assert!(s.len() == k && s.as_ptr() == a[p0..].as_ptr());
+            }
+            assert!(pos_of(&c, &a, n) == if k <= rem { p0 + k } else { p0 });
+            kani::cover!(r.is_ok() && k == 0);
+            kani::cover!(r.is_err() && k == usize::MAX);
+            std::mem::forget(r);
+        }
+    }
+}
+
+// Contract (C08, C17): the varint accessors on arbitrary bytes, against the format definition:
+//  read_vlq : Ok(v), advance k  iff the input starts with a well-formed varint (v, k); else Err, no move
+//  get_long : Ok(unzigzag(v)), advance k  under the same condition
+//  get_int  : Ok(unzigzag32(v)), advance k  iff additionally v <= u32::MAX (an over-wide value is an Err,
+//             not a silent truncation); Err otherwise, no move
+//  skip_long: Ok and advance k  iff get_long would succeed
+//  skip_int : Ok => get_int would succeed with the same k;  get_int Ok with k <= 5 => skip_int Ok.
+//             (For non-canonical encodings of 6..10 bytes whose value still fits 32 bits get_int accepts
+//             and skip_int rejects: recorded in REPORT as an observation, not asserted either way.)
+// @unit name=cursor_varints props=C08,C17 kind=bounded bound=input<=12_bytes fns=AvroCursor::read_vlq,AvroCursor::get_int,AvroCursor::get_long,AvroCursor::skip_int,AvroCursor::skip_long timeout=480 mem=3
+#[kani::proof]
+#[kani::unwind(12)]
+#[kani::stub(alloc::fmt::format, stub_format)]
+fn cursor_varints() {
+    let (a, n) = any_input::<12>();
+    let mut c = AvroCursor::new(&a[..n]);
+    let model = spec_varint(&a, n);
+    let which: u8 = kani::any();
+    match which {
+        0 => {
+            let r = c.read_vlq();
+            assert!(r.is_ok() == model.is_some());
+            if let Ok(v) = &r {
+                assert!(*v == model.unwrap().0);
+            }
+            assert!(pos_of(&c, &a, n) == model.map_or(0, |m| m.1));
+            kani::cover!(matches!(r, Ok(u64::MAX)));
+            kani::cover!(r.is_err() && n == 12);
+            std::mem::forget(r);
+        }
+        1 => {
+            let r = c.get_long();
+            assert!(r.is_ok() == model.is_some());
+            if let Ok(v) = &r {
+                assert!(*v == unzigzag(model.unwrap().0));
+            }
+            assert!(pos_of(&c, &a, n) == model.map_or(0, |m| m.1));
+            kani::cover!(matches!(r, Ok(i64::MIN)));
+            std::mem::forget(r);
+        }
+        2 => {
+            let r = c.get_int();
+            let fits = model.is_some() && model.unwrap().0 <= u32::MAX as u64;
+            assert!(r.is_ok() == fits);
+            if let Ok(v) = &r {
+                assert!(*v as i64 == unzigzag(model.unwrap().0));
+            }
+            // the varint is consumed even when the value is rejected as too wide
+            assert!(pos_of(&c, &a, n) == model.map_or(0, |m| m.1));
+            kani::cover!(matches!(r, Ok(i32::MIN)));
+            kani::cover!(r.is_err() && model.is_some());
+            std::mem::forget(r);
+        }
+        3 => {
+            let r = c.skip_long();
+            assert!(r.is_ok() == model.is_some());
+            assert!(pos_of(&c, &a, n) == model.map_or(0, |m| m.1));
+            kani::cover!(r.is_ok() && c.position() == 10);
+            std::mem::forget(r);
+        }
+        _ => {
+            let r = c.skip_int();
+            let fits = model.is_some() && model.unwrap().0 <= u32::MAX as u64;
+            if r.is_ok() {
+                assert!(fits);
+                assert!(pos_of(&c, &a, n) == model.unwrap().1);
+            } else {
+                assert!(pos_of(&c, &a, n) == 0);
+                // a rejected skip is either a value get_int rejects too, or a non-canonical long form
+                assert!(!fits || model.unwrap().1 > 5);
+            }
+            kani::cover!(r.is_ok() && c.position() == 5);
+            kani::cover!(r.is_err() && fits); // the observation above
+            kani::cover!(r.is_err() && model.is_some() && model.unwrap().1 == 5);
+            std::mem::forget(r);
+        }
+    }
+}
+
+// Contract (C08): get_bytes on arbitrary input: the length prefix is an Avro long L; Ok(s) iff the prefix
+// is a well-formed varint, L >= 0 and L <= bytes remaining after the prefix — then s is exactly
+// input[k .. k+L] (same memory) and the cursor sits right behind it; a negative or too large L (up to
+// i64::MAX: no wrap-around, no huge allocation — nothing is allocated at all) is an Err.
+// @unit name=cursor_get_bytes props=C08 kind=bounded bound=input<=14_bytes fns=AvroCursor::get_bytes timeout=480 mem=3
+#[kani::proof]
+#[kani::unwind(12)]
+#[kani::stub(alloc::fmt::format, stub_format)]
+fn cursor_get_bytes() {
+    let (a, n) = any_input::<14>();
+    let mut c = AvroCursor::new(&a[..n]);
+    let r = c.get_bytes();
+    match spec_varint(&a, n) {
+        None => assert!(r.is_err() && pos_of(&c, &a, n) == 0),
+        Some((v, k)) => {
+            let l = unzigzag(v);
+            let fits = l >= 0 && l as u64 <= (n - k) as u64;
+            assert!(r.is_ok() == fits);
+            if let Ok(s) = &r {
+                assert!(s.len() as i64 == l && s.as_ptr() == a[k..].as_ptr());
+                assert!(pos_of(&c, &a, n) == k + l as usize);
+            } else {
+                assert!(pos_of(&c, &a, n) == k);
+            }
+            kani::cover!(r.is_ok() && l == 13);
+            kani::cover!(r.is_ok() && l == 0);
+            kani::cover!(r.is_err() && l < 0);
+            kani::cover!(r.is_err() && l == i64::MAX);
+            kani::cover!(r.is_err() && l as u64 == (n - k) as u64 + 1);
+        }
+    }
+    std::mem::forget(r);
+}
